@@ -11,7 +11,7 @@ func init() {
 			"The installer's own-record test is an identity test inside the in-flight table's computation (C08.getorcreate: records are removed only by pointer identity). "+
 			"NOT decided: the schedule quantifier itself (atomicity of those steps is C15).",
 		[]string{"hashmap.Map.Compute is atomic per key (C15.once/rmw)"},
-		ruleC09Clear, ruleC09Guard, ruleC08GetOrCreate)
+		ruleC09Clear, ruleC09Cancel, ruleC09Guard, ruleC08GetOrCreate)
 	register("C20",
 		"Decides the per-path counting facts behind exact statistics: the lookup-count table per operation with hit <=> live entry (C20.lookup), one load record per loader dispatch and eviction records only for removals that happened (C20.load / C20.evict). NOT decided: exactness of the striped adder under contention.",
 		[]string{"stats.Recorder methods only add"},
